@@ -394,6 +394,12 @@ class _ControlLoopRunner:
                     tick = self.tick_buffer.pop(0)
                     if isinstance(tick, TickIdleCheck):
                         self._idle_check_pending = False
+                        if any(
+                            isinstance(t, TickAddEvent)
+                            for _, _, t in self.scheduled_wakeups
+                        ):
+                            # a retry waiting out its delay is pending step work: not idle
+                            continue
                     result = await self._process_tick(tick)
                     if result is not None:
                         return result
